@@ -95,6 +95,14 @@ def apply_op(state, model: Model, op):
         if how == "inplace":
             for i in idx:
                 state["alive"][i] = False
+        elif how == "assign_int":  # the way an IBM writes it: np.where(cond, 0, 1) is an integer array
+            m = np.ones(n_before, dtype=int)
+            m[[i for i in range(n_before) if not model.recs[i]["alive"]]] = 0
+            m[idx] = 0
+            state["alive"] = m
+        elif how == "assign_list":
+            dead = set(idx) | {i for i in range(n_before) if not model.recs[i]["alive"]}
+            state["alive"] = [i not in dead for i in range(n_before)]
         else:
             m = state["alive"].copy()
             m[idx] = False
@@ -116,6 +124,13 @@ def apply_op(state, model: Model, op):
         newv = [r[var] * 2 + 1 for r in model.recs]
         if op[2] == "list":
             state[var] = newv
+        elif op[2] == "other":  # an array of another dtype: the state keeps the declared type
+            if var == "tag":
+                state[var] = np.array(newv, dtype=float)
+            else:
+                a32 = np.array(newv, dtype=np.float32)
+                state[var] = a32
+                newv = [float(v) for v in a32]
         else:
             state[var] = np.array(newv, dtype=float if var != "tag" else int)
         for r, v in zip(model.recs, newv):
@@ -211,6 +226,7 @@ ALPHABET = [
     ("kill", 0b0001, "inplace"),       # first
     ("kill", 0b1010101010101010, "assign"),  # every second, starting at index 1
     ("kill", 0b0101010101010101, "inplace"),  # every second, starting at index 0
+    ("kill", 0b0110011001100110, "assign_int"),  # item assignment with an integer 0/1 array
     ("compact",),
     ("assign", "X", "array"),
     ("inplace", "age"),
@@ -231,10 +247,10 @@ def exhaustive_shard(prefixes, maxlen, known):
 gives = st.lists(st.sampled_from(["age", "w", "tag", "X0", "born"]), unique=True, max_size=5).map(sorted)
 op_strategy = st.one_of(
     st.tuples(st.just("append"), st.integers(0, 6), gives, st.sampled_from(["array", "broadcast", "scalar"])),
-    st.tuples(st.just("kill"), st.integers(0, 2**16 - 1), st.sampled_from(["inplace", "assign"])),
+    st.tuples(st.just("kill"), st.integers(0, 2**16 - 1), st.sampled_from(["inplace", "assign", "assign_int", "assign_list"])),
     st.tuples(st.just("deact"), st.integers(0, 2**16 - 1)),
     st.tuples(st.just("compact")),
-    st.tuples(st.just("assign"), st.sampled_from(["X", "Y", "Z", "age", "w", "tag"]), st.sampled_from(["array", "list"])),
+    st.tuples(st.just("assign"), st.sampled_from(["X", "Y", "Z", "age", "w", "tag"]), st.sampled_from(["array", "list", "other"])),
     st.tuples(st.just("inplace"), st.sampled_from(["X", "age", "w", "tag"])),
     st.tuples(st.just("pvar_assign")),
 )
